@@ -48,8 +48,8 @@ class IoWorld(World):
     FALSIFIERS = {"C13": ("read_csv", "read_gpx", "read_gpx_dir", "read_network",
                           "wkt_roundtrip", "read_csv_dir", "read_net_wkt")}
     COMPONENTS = {
-        "real": ["tracklib.io.TrackWriter (writeToFile, writeToFiles, writeToGpx)",
-                 "tracklib.io.TrackReader (readFromCsv, readFromFile, readFromGpx, parseWkt)",
+        "real": ["tracklib.io.TrackWriter (writeToFile, writeToCsv, writeToFiles, writeToGpx)",
+                 "tracklib.io.TrackReader (readFromCsv, readFromFile, readFromGpx, readFromWkt, parseWkt)",
                  "tracklib.io.TrackFormat", "tracklib.io.NetworkWriter", "tracklib.io.NetworkReader",
                  "tracklib.io.NetworkFormat", "tracklib.core.ObsTime (formats, printing, parsing)",
                  "tracklib.core Track / Obs / coords / Network / Edge / Node"],
@@ -81,6 +81,12 @@ class IoWorld(World):
                 "fault_rate": rate, "fault_kinds": kinds, "formats": fmts, "mix": mix,
                 "clock0": r.randrange(0, 4102444800), "max_obs": r.choice([1, 2, 4, 12]),
                 "shared": r.random() < 0.4, "bias_after_fault": r.random() < 0.7}
+
+    @classmethod
+    def deepen(cls, cfg, r):
+        cfg["nsteps"] = min(cfg["nsteps"] * 3, 180)
+        cfg["max_obs"] = r.choice([40, 100])
+        cfg["sessions"] = 3
 
     # ------------------------------------------------------------------- setup
     def setup(self):
